@@ -114,10 +114,40 @@ def enumerate_cases(tier: str):
                 yield {"version": version, "msg": msg[:5] + [text], "ending": "\n", "warmup": []}
             for ctx in env.CTX_MODES:
                 yield {"version": version, "msg": msg, "ending": "\n", "warmup": [], "ctx": ctx}
+        # every payload of the enumerated sets (and version-looking text) under every command and type: no type has a private payload rule
+        if tier == "thorough" or version in ("1.4", "2.2"):
+            for command, child, types in ((3, 255, range(0, 36)), (0, 255, (17, 18)), (0, 1, range(0, 8)), (1, 1, range(0, 12)), (2, 1, range(0, 6)), (4, 255, range(0, 6))):
+                for mtype in types:
+                    for text in gen.PLAIN_PAYLOADS + gen.DELIM_PAYLOADS + VERSION_LOOKING:
+                        yield {"version": version, "msg": [0 if command == 3 and mtype == 2 else 7, child, command, 0, mtype, text.rstrip()], "ending": "\n", "warmup": []}
+            # one long-lived schema encodes messages whose headers read the same once the separators are dropped
+            for first, second in _collision_pairs():
+                yield {"version": version, "msg": list(second) + ["x"], "ending": "\n", "warmup": [], "pre_dumps": [list(first) + ["first"]]}
         for size in (51, 200, 65530, 65537, 70000, 200000):
             for debug in (False, True):
                 yield {"version": version, "msg": [12, 3, 1, 1, 47, "p" * size], "ending": "\n", "warmup": [], "debug_log": debug}
                 yield {"version": version, "msg": [12, 255, 3, 0, 9, "é;" * (size // 2)], "ending": "\n", "warmup": [], "debug_log": debug}
+
+
+VERSION_LOOKING = ("v2.3.2", "V2.2", "2.3.", "2.2.0.", "v", "1.", ".5", "2.2.0-beta", "2.2.0+build", " 2.2", "2.2.0 (release)", "02.02", "2.02.0")
+
+
+def _collision_pairs():
+    """Pairs of headers whose fields, written without separators, give the same text ((1, 23, ...) and (12, 3, ...))."""
+    groups: dict = {}
+    for node in (1, 12, 123, 2, 23, 11, 21):
+        for child in (1, 2, 3, 12, 23, 21, 11, 0, 10):
+            for command in (0, 1, 2):
+                for ack in (0, 1):
+                    for mtype in (0, 1, 2, 3, 10, 11, 21, 12):
+                        header = (node, child, command, ack, mtype)
+                        groups.setdefault("".join(str(x) for x in header), []).append(header)
+    for members in groups.values():
+        members = members[:3]
+        for a in members:
+            for b in members:
+                if a != b:
+                    yield a, b
 
 
 def _nontrivial(msg: list) -> bool:
@@ -174,6 +204,16 @@ def _run_case(case: dict) -> Outcome:
         except Exception:  # noqa: BLE001
             pass
     expected_line = ref_format(node, child, command, ack, mtype, payload)
+    for other in case.get("pre_dumps", ()):
+        # the schema has encoded other messages before (it lives as long as the gateway does)
+        try:
+            other_line = schema.dump(Message(*other))
+        except Exception as err:  # noqa: BLE001
+            return fail(f"dump-raises:{type(err).__name__}", f"dump({other}) raised {err!r}", classes=classes)
+        if other_line != ref_format(*other):
+            return fail("dump-format:earlier-message", f"dump({other}) = {other_line!r}", classes=classes)
+    if case.get("pre_dumps"):
+        classes += ("after-other-dumps",)
 
     # (A) encode == reference formatter; decode(encode(m)) == m
     try:
